@@ -7,6 +7,31 @@ BANK_PLAIN = ["Inner", "Deep", "EmbedVal", "EmbedPtr", "Shadow", "EmbedUnexporte
 BANK_KNOWN = {"ShadowByTag": "D14", "Ambiguous": "D14", "EmbedTagged": "D16", "EmbedNonStruct": "D16", "BadTag": "D15",
               "WithMarshalers": "D13", "big.Int": "D13"}
 BANK_REC = ["Rec", "RecA"]
+BANK_BAD = ["Handler", "IntKeyed", "MyChan", "TwoHandlers", "Handler"]
+GEN = {"names": [], "redeclared": set(), "embedding": set(), "embeds": {}}
+
+
+def embeds_closure(name):
+    """Every generated type embedded in `name`, directly or through embedded types."""
+    out, todo = [], list(GEN["embeds"].get(name, []))
+    while todo:
+        n = todo.pop()
+        if n not in out:
+            out.append(n)
+            todo += GEN["embeds"].get(n, [])
+    return out    # declared types generated for this run (gen_decls), see harness_files
+
+
+def harness_files(seed, tier):
+    """Plugin hook HARNESS_FILES: the declared types of this run, compiled into the harness through a build overlay."""
+    import random
+    from . import gen_decls
+    src, infos = gen_decls.gen_decls(random.Random(seed * 7919 + 13), 30 if tier == "quick" else 80)
+    GEN["names"] = [x["name"] for x in infos]
+    GEN["redeclared"] = {x["name"] for x in infos if x["redeclared"]}
+    GEN["embedding"] = {x["name"] for x in infos if x["embeds"]}
+    GEN["embeds"] = {x["name"]: list(x["embeds"]) for x in infos}
+    return {"zz_gen_types.go": src}
 TAGS = ['json:"%s"', 'json:"%s,omitempty"', 'json:"%s,omitzero"', 'json:"%s,omitempty,omitzero"', "", 'json:",omitempty"', 'json:"-"',
         'json:"-,"', 'json:"%s" jsonschema:"described"']
 
@@ -24,11 +49,13 @@ def gen_type(rng, depth, used, allow_known=0.04, allow_rec=0.0, allow_bad=0.0):
                 n = rng.choice(BANK_REC)
                 used.add(n)
                 return {"k": "named", "name": n}
-            n = rng.choice(BANK_PLAIN)
+            n = rng.choice(GEN["names"]) if GEN["names"] and rng.random() < 0.6 else rng.choice(BANK_PLAIN)
             used.add(n)
             return {"k": "named", "name": n}
         if rng.random() < allow_bad:
             used.add("unsupported")
+            if rng.random() < 0.5:
+                return {"k": "named", "name": rng.choice(BANK_BAD)}     # named types of unsupported kinds (they can occur several times)
             return {"k": rng.choice(["func", "chan", "complex128"])}
         return {"k": rng.choice(BASIC)}
     if r < 0.47:
